@@ -71,44 +71,49 @@ def run_case(case, fam):
         while root.__cause__ is not None:
             root = root.__cause__
         return "trace-fails", f"{type(root).__name__}: {str(root)[:300]}"
+    # native steps (onnx inference/checker, ORT, reference evaluator) run in the sandbox helper
+    from vf.props import c08_helper
+    H = c08_helper.helper()
+    ranks = [getattr(e, "ndim", None) for e in exp]
+    mb = mp.SerializeToString()
     try:
-        mp2 = K.type_and_check(mp, exp)
-    except Exception as e:  # noqa: BLE001
-        return "invalid-graph", f"{type(e).__name__}: {str(e)[:300]}"
+        r = H.call(("check", mb, ranks))
+    except c08_helper.Crashed as e:
+        return "invalid-graph", f"NATIVE CRASH in onnx shape inference / checker on the traced graph: {e}"
+    if r[0] != "ok":
+        return "invalid-graph", r[1][:320]
+    mb2 = r[1]
     try:
-        outs, engine = K.run_model(mp2, feeds)
-    except K.RunFail as e:
-        if e.no_kernel():
-            return "skip:no-runtime-kernel", str(e)[:200]
-        return "run-fails", str(e)[:400]
-    # structure: a torch list corresponds to an ONNX sequence output or to several outputs
-    if est == "list":
-        if len(outs) == 1 and isinstance(outs[0], list):
-            got = [outs[0]]
-        else:
-            got = [list(outs)]
-    elif est == "tuple":
-        got = list(outs)
-        # torchlib may legitimately return fewer outputs than torch's tuple only if ... no: structure must agree
-    else:
-        got = list(outs)
+        r = H.call(("run", mb2, feeds))
+    except c08_helper.Crashed as e:
+        return "run-fails", f"NATIVE CRASH while running the traced graph: {e}"
+    if r[0] != "ok":
+        if r[3]:
+            return "skip:no-runtime-kernel", (r[1] + " | " + r[2])[:200]
+        return "run-fails", ("ort: " + r[1] + " | ref: " + r[2])[:400]
+    outs, engine = r[1], r[2]
+
+    def shape_up(o):
+        # a torch list corresponds to an ONNX sequence output or to several outputs
+        if est == "list":
+            return [o[0]] if (len(o) == 1 and isinstance(o[0], list)) else [list(o)]
+        return list(o)
     loose = _LOOSE.get(fam, 1.0)
-    d = runeq.compare(got, exp, loose=loose)
+    d = runeq.compare(shape_up(outs), exp, loose=loose)
     if d is None:
         return "ok", engine
     if engine == "ort":
         # arbitration: a disagreement that the reference evaluator does not share is an ORT defect
         # (e.g. ReduceSum over an empty tensor with a negative axis keeps the axis), not torchlib's
         try:
-            routs = runeq.run_ref(mp2, feeds)
-            rgot = [routs[0]] if (est == "list" and len(routs) == 1 and isinstance(routs[0], list)) else \
-                ([list(routs)] if est == "list" else list(routs))
-            dr = runeq.compare(rgot, exp, loose=loose)
+            r = H.call(("ref", mb2, feeds))
+        except c08_helper.Crashed:
+            r = ("err", "crash")
+        if r[0] == "ok":
+            dr = runeq.compare(shape_up(r[1]), exp, loose=loose)
             if dr is None:
                 return "skip:ort-differs-reference-agrees-with-torch", d
             d = dr + " [reference evaluator; ORT: " + d + "]"  # classify by the reference's answer
-        except Exception:  # noqa: BLE001  reference cannot run it: ORT's verdict stands
-            pass
     return K.classify_diff(d), d
 
 
